@@ -168,7 +168,7 @@ def k_equal(base, chk):
     info = {}
 
     def f_sub(ex, path, a):
-        d = [z3.BitVec("diff[%d]" % i, 64) for i in range(4)]
+        d = [k.bv("diff[%d]" % i, 64) for i in range(4)]
         info["a"], info["b"] = ex.load(path, a[1]), ex.load(path, a[2])
         info["d"] = d
         ex.store(path, a[0], tuple(d))
@@ -206,7 +206,30 @@ def k_equal(base, chk):
                 w = lambda v: "w:" + ",".join(str(((v * R % L) >> (64 * i)) & (2**64 - 1)) for i in range(4))
                 ops.append({"op": "S.Equal", "args": ["a", "b"], "init": {"a": w(x), "b": w(y)}})
                 meta.append((x, y))
-        # single-bit differences in the raw limbs
+        # the solver's counterexamples are values of the difference s-t (Montgomery limbs): realise them as s = diff, t = 0;
+        # plus sparse bit/byte patterns of the difference (what a defective fold would miss)
+        raw = []
+        for m in models:
+            try:
+                raw.append([int(m["diff[%d]" % i]) for i in range(4)])
+            except Exception:
+                pass
+        for pat in (0x100, 0xff00, 0xff00ff00ff00ff00, 0x00ff00ff00ff00ff, 1 << 63, 1 << 32, 1 << 33, 0xaaaaaaaaaaaaaaaa, 0x5555555555555555, 0xf0f0f0f0f0f0f0f0, 0x0f0f0f0f0f0f0f0f):
+            for limb in range(4):
+                d_ = [0, 0, 0, 0]
+                d_[limb] = pat
+                raw.append(d_)
+        for b in range(0, 64, 1):
+            raw.append([1 << b, 0, 0, 0])
+            raw.append([0, 0, 0, (1 << b) & 0x0fffffffffffffff])
+        for d_ in raw:
+            ev = sum(x << (64 * i) for i, x in enumerate(d_))
+            if ev >= L:
+                continue
+            ops.append({"op": "S.Equal", "args": ["a", "b"], "init": {"a": "w:%d,%d,%d,%d" % tuple(d_), "b": "w:0,0,0,0"}})
+            meta.append((ev, 0))
+            ops.append({"op": "S.Equal", "args": ["b", "a"], "init": {"a": "w:%d,%d,%d,%d" % tuple(d_), "b": "w:0,0,0,0"}})
+            meta.append((0, ev))
         res = native.run_ops("", ops)
         for (x, y), r in zip(meta, res):
             if r.get("int") != (1 if x == y else 0):
